@@ -425,7 +425,9 @@ func (p *parser) parseASCII(minLength, maxLength int) (item ast.ItemNode, ok boo
 	for _, t := range tokens {
 		switch t.typ {
 		case tokenTypeQuotedString:
-			val, _ := strconv.Unquote(t.val)
+			// SML has no escape sequences; the token is the text between
+			// the double quotes, which the lexer guarantees to be present
+			val := t.val[1 : len(t.val)-1]
 			for _, r := range val {
 				if r > unicode.MaxASCII {
 					val = ""
